@@ -11,6 +11,7 @@ EWhy == CASE E.op = "start"  -> StartWhy(E.args.cfg, E.args.f0)
           [] E.op = "epoch"  -> EpochWhy(E.args.f, E.args.below)
           [] E.op = "return" -> ReturnWhy(E.ret)
           [] E.op = "lbfgsb" -> LbfgsbWhy(E.ret)
+          [] E.op = "plain"  -> PlainWhy(E.ret)
           [] OTHER -> "unknown-event"
 TInit == tid \in 1..Len(Traces) /\ l = 1 /\ Init
 TAccept == /\ l <= Len(Tr)
@@ -19,6 +20,7 @@ TAccept == /\ l <= Len(Tr)
               \/ E.op = "epoch" /\ Epoch(E.args.f, E.args.below)
               \/ E.op = "return" /\ Return(E.ret)
               \/ E.op = "lbfgsb" /\ LbfgsbWhy(E.ret) = "ok" /\ UNCHANGED vars
+              \/ E.op = "plain" /\ PlainWhy(E.ret) = "ok" /\ UNCHANGED vars
            /\ l' = l + 1 /\ UNCHANGED tid
 \* a rejected event is reported; the run is then resynchronised: a rejected return still ends the solve
 TReject == /\ l <= Len(Tr) /\ EWhy # "ok"
